@@ -10,7 +10,7 @@ from ..ctx import engine
 from ..model import AnalysisError, Program
 from ..paths import SymPath, show
 from ..report import Report
-from .common import HANDLE_FAILURE, REASON_EVENT, RUNNERS, SELF, attr, check_enums, emit_info, enum_name, is_emit
+from .common import HANDLE_FAILURE, REASON_EVENT, RUNNERS, SELF, attr, check_enums, emit_info, enum_name, is_emit, runner_paths
 from .runner_flow import RunnerClient, flag1, run_runners, short_witness
 
 TERMINAL_NO_REASON = {"SUCCESS"}
@@ -165,9 +165,11 @@ def run(rep: Report, prog: Program, tier: str) -> None:
                     rep.fail("R14.3", f"_handle_failure|emit-args|{info['event_name']}", f"_handle_failure: emit({info['event_name']}) carries attempt={show(info['attempt'])}, sleep_s={show(info['sleep_s'])}, klass={show(info['klass'])}, exc={show(info['exc'])}, cause={show(info['cause'])}", where=f"{fi.module.relpath}:{e.lineno}", function=fi.qual)
     for name, q in RUNNERS.items():
         rf = prog.func(q)
-        for p in engine(prog).paths(rf):
+        kinds_seen = set()
+        for p in runner_paths(prog, name):
             for e in p.calls():
                 if e.is_repo("_RetryState.handle_exception") or e.is_repo("_RetryState.handle_result"):
+                    kinds_seen.add(e.label.split(".")[-1])
                     a = e.args[-1] if e.args else None
                     a = e.kwargs.get("attempt", a)
                     rep.instance("R14.3", f"{name}|{e.label.split('.')[-1]}@{e.lineno}")
@@ -175,6 +177,8 @@ def run(rep: Report, prog: Program, tier: str) -> None:
                         rep.ok("R14.3")
                     else:
                         rep.fail("R14.3", f"{name}|attempt-arg|{e.label.split('.')[-1]}", f"{q}: {e.label.split(':')[-1]} receives attempt={show(a)}, expected the loop variable", where=f"{rf.module.relpath}:{e.lineno}", function=q)
+        if kinds_seen != {"handle_exception", "handle_result"}:
+            raise AnalysisError(f"{q}: failure handling call sites reached: {kinds_seen}")
     for m in ("handle_exception", "handle_result"):
         hf = prog.func(f"redress.policy.state:_RetryState.{m}")
         for p in engine(prog).paths(hf):
